@@ -33,6 +33,8 @@ CHECKS = {
             "5-200 datagrams of 20 B - 60 KiB, each intact, cut at a drawn offset or lying about its length, arrive in simultaneous bursts so that receive buffers are recycled in scheduler-chosen orders; every emission must carry the marker of exactly one datagram, incomplete or over-declaring datagrams must produce no emission at exact quiescence, intact ones exactly one equal emission, and a sampled datagram must be relayed identically when replayed alone in a fresh world."),
     "C12": ("exploration", "3 C12", "seeded simulation: 2-8 TCP client connections from one simulated address, answers of reactive backends reordered across connections, segmentation and short reads",
             "Every provisional and first final answer relayed for a request must be a write on the connection on which the request with that branch arrived; the proxy must not dial towards the client while its connections are open; every answered transaction gets its final answer."),
+    "C15": ("exploration", "3 C15", "seeded simulation under the simulated clock (testing/synctest): exact expiry-instant probes (t0+L-1ns / t0+L / t0+L+1ns), termination, decades-long Expires; timed pin model; in-package table-age bound for the purge clause",
+            "dialogTimeout from YAML or DEFAULT_DIALOG_TIMEOUT (1 s - 2 h), establishing responses with Expires absent / smaller / larger / 2^31-1; the kernel knows the simulated instant t0 at which the establishing response was handed to the proxy, so a probe (as many simultaneous in-dialog requests as there are backends) processed before t0+max(timeout,Expires) must reach the pinned backend and one processed after it (or after BYE / NOTIFY terminated) must be load-balanced, with 1 ns resolution and no slack; in the purge variant 3-20 timeout periods of continuing traffic with mixed Expires must leave no entry that expired more than one timeout (plus the longest traffic gap) ago."),
     "C17": ("exploration", "3 C17", "metamorphic twin worlds: same plan, same schedule tape and entropy, every message respelled / re-laid-out; histories compared event by event",
             "World B replays world A's plan with header names independently respelled (canonical, compact, upper, lower, random case) and Via/Route/Record-Route lists re-laid-out; relay decision, destination, decoded routing stacks, remaining headers, body and the pinning decisions of scripted dialogs must be the same."),
     "C18": ("exploration", "3 C18", "seeded simulation with map iteration order drawn from the seed (rewrite rule R5); in-package repeated lookups on the table built by the real configuration code plus end-to-end routed requests",
